@@ -51,3 +51,39 @@ Proof.
   unfold ren_fraction. rewrite Hf. cbn [bind ren nren fst snd].
   assert (F : (1 : Qc) / (1 + 0) = 1) by (apply Qc_is_canon; reflexivity). rewrite F. f_equal. f_equal; ring.
 Qed.
+
+(** direct electric DHW with on-site electricity: the on-site electricity used for DHW over the demand *)
+Lemma amodify_sub0 m c : amodify m c (fun v => v - 0) = m.
+Proof.
+  unfold amodify. induction m as [|[k v] m IH]; [reflexivity|]. cbn [map fst snd]. rewrite IH.
+  destruct (Carrier_beq k c); [|reflexivity]. f_equal. f_equal. ring.
+Qed.
+
+Section Electric.
+  Variable ep : EP.
+  Variables (v : list Qc) (E : Qc).
+  Let D := qsum v.
+  Hypothesis Hneeds : nd_ACS (ep_needs ep) = Some v.
+  Hypothesis Hd : ~ qabs D < f32_epsilon.
+  Hypothesis Hm : dhw_used_by_cr ep = [(ELECTRICIDAD, E)].
+  Hypothesis HE : qfrac 1 100 <= E.
+  Hypothesis Haux : qsum (map vals_sum (filter (fun e => is_aux e && has_service ACS e) (ep_data ep))) = 0.
+  Hypothesis Hlow : qsum (map vals_sum (filter (fun e => is_used e && has_carrier EAMBIENTE e && contains (e_cmt e) TAG_EXCLUYE_SCOP) (ep_data ep))) = 0.
+  Hypothesis Hcgn : t_used_src_srv_opt ep EL_COGEN ACS = 0.
+
+  Theorem dhw_direct_electric : fraccion_renovable_acs_nrb ep = Ok (t_used_src_srv_opt ep EL_INSITU ACS / D).
+  Proof.
+    unfold fraccion_renovable_acs_nrb, needs_sum. rewrite Hneeds. fold D.
+    destruct (qltb_spec (qabs D) f32_epsilon) as [L|L]; [contradiction|].
+    cbv zeta. rewrite Hm, Haux, Hlow, !amodify_sub0.
+    assert (A : aget [(ELECTRICIDAD, E)] ELECTRICIDAD = Some E) by reflexivity. rewrite A.
+    destruct (qltb_spec (qabs E) (qfrac 1 100)) as [K|K]; [exfalso; revert K; qlra|].
+    assert (A2 : aget [(ELECTRICIDAD, E)] EAMBIENTE = None) by reflexivity. rewrite A2.
+    cbn [q_nrb_non_biomass cr_is_nearby andb bind fst snd]. rewrite A.
+    assert (B1 : ahas [(ELECTRICIDAD, E)] BIOMASA = false) by reflexivity.
+    assert (B2 : ahas [(ELECTRICIDAD, E)] BIOMASADENSIFICADA = false) by reflexivity. rewrite B1, B2. cbn [orb andb negb bind].
+    destruct (qltb_spec f32_epsilon (qabs E)) as [P|P]; [|exfalso; revert P; unfold f32_epsilon; qlra].
+    rewrite Hcgn. destruct (qltb_spec 0 0) as [Z|Z]; [exfalso; qlra|]. rewrite andb_false_r. cbn [andb bind].
+    f_equal. unfold Qcdiv. ring.
+  Qed.
+End Electric.
